@@ -1,7 +1,84 @@
-(* C06 -- placeholder until the session theorems for this property are in place *)
-From SF Require Import Session Session_proofs Session_c07.
-Theorem C06_pre_logon_frame : forall cfg s o s' os,
-    not_logged s -> pools_ok s -> not_app_send o -> step cfg s o = (s', os) ->
-    Forall post_logon_types (wire_types os).
-Proof. exact logon_step_wires. Qed.
-Print Assumptions C06_pre_logon_frame.
+(* C06 -- A session is logged on only through a valid, approved Logon exchange. *)
+From SF Require Import Bytes Values Wire Parse Session Session_proofs Session_c07 Session_clean
+  Session_handlers Session_c06.
+
+(* Over whole histories (inbound messages of any content, local sends, Logout, Stop,
+   registrations, timer expiries): a session that starts not logged on is logged on afterwards
+   only if the history delivered a Logon that parses (integrity check included) and that was
+   handled either while waiting for one under the acceptance conditions -- method in the allowed
+   set, heartbeat interval within the limits, callback approving -- or, on the initiating side,
+   while waiting for the answer to its own Logon. *)
+Theorem C06_logged_only_through_logon :
+  forall cfg ops s,
+    not_logged s -> logged_or_probing (fst (run_ops cfg s ops)) = true ->
+    exists d s0 lm, In (Inbound d) ops /\ not_logged s0 /\ parse_as msgtype_Logon tpl_Logon d = Ok lm /\
+      ((s_state s0 = WaitingLogon /\ acceptable cfg s0 lm) \/ s_state s0 = WaitingLogonAnswer).
+Proof. exact history_logged_implies_logon. Qed.
+Print Assumptions C06_logged_only_through_logon.
+
+Theorem C06_step :
+  forall cfg s o s' os,
+    not_logged s -> step cfg s o = (s', os) -> logged_or_probing s' = true ->
+    exists d, o = Inbound d /\
+      exists s0 lm, not_logged s0 /\ parse_as msgtype_Logon tpl_Logon d = Ok lm /\
+        ((s_state s0 = WaitingLogon /\ acceptable cfg s0 lm) \/ s_state s0 = WaitingLogonAnswer).
+Proof. exact step_logs_on. Qed.
+Print Assumptions C06_step.
+
+(* the answer to an acceptable Logon echoes its heartbeat interval and method *)
+Theorem C06_accepted_answer :
+  forall cfg s d lm,
+    parse_as msgtype_Logon tpl_Logon d = Ok lm -> s_state s = WaitingLogon ->
+    let ns := logon_settings cfg (s_settings s) lm in
+    check_logon_params cfg (upd_settings s ns) (st_enc ns) (st_hb ns) = None -> c_approve cfg ns = true ->
+    run_in_handler cfg s HLogon d =
+    (let '(s3, o3) := change_state (start_timers (upd_settings s ns)) SuccessfulLogged in
+     let '(s4, o4) := session_send cfg s3 (logon_answer (st_enc ns) (st_hb ns)) in
+     let '(s5, o5) := process_inc_seq cfg s4 (get_int tag_MsgSeqNum (m_header lm)) in
+     (s5, o3 ++ o4 ++ o5, true)).
+Proof. exact logon_accepted. Qed.
+Print Assumptions C06_accepted_answer.
+
+(* any other Logon while waiting: one Reject by the Logon's sequence number, naming the
+   offending tag when there is one; the state is not touched (only the settings record) *)
+Theorem C06_refused :
+  forall cfg s d lm,
+    parse_as msgtype_Logon tpl_Logon d = Ok lm -> s_state s = WaitingLogon ->
+    let ns := logon_settings cfg (s_settings s) lm in
+    let seq := get_int tag_MsgSeqNum (m_header lm) in
+    (forall tag, check_logon_params cfg (upd_settings s ns) (st_enc ns) (st_hb ns) = Some tag ->
+       run_in_handler cfg s HLogon d =
+       (let '(s', o) := session_send cfg (upd_settings s ns) (mk_reject reject_incorrect_value tag seq) in (s', o, true)))
+    /\ (check_logon_params cfg (upd_settings s ns) (st_enc ns) (st_hb ns) = None -> c_approve cfg ns = false ->
+       run_in_handler cfg s HLogon d =
+       (let '(s', o) := session_send cfg (upd_settings s ns) (mk_reject reject_other 0%Z seq) in (s', o, true))).
+Proof. exact logon_refused. Qed.
+Print Assumptions C06_refused.
+
+Theorem C06_offending_tag :
+  forall cfg s enc hb tag,
+    check_logon_params cfg s enc hb = Some tag ->
+    (existsb (beq enc) (c_allowed cfg) = false /\ tag = tagnum_EncryptMethod)
+    \/ (existsb (beq enc) (c_allowed cfg) = true /\ tag = tagnum_HeartBtInt
+        /\ exists lo hi, st_limits (s_settings s) = Some (lo, hi) /\ (hb < lo \/ hi < hb)%Z).
+Proof. exact check_params_tag. Qed.
+Print Assumptions C06_offending_tag.
+
+(* a further Logon while logged on: one Reject, through Session.send, which changes nothing
+   that governs the session *)
+Theorem C06_logon_when_logged :
+  forall cfg s d lm,
+    parse_as msgtype_Logon tpl_Logon d = Ok lm -> s_state s = SuccessfulLogged ->
+    run_in_handler cfg s HLogon d =
+    (let '(s', o) := session_send cfg s (mk_reject reject_other 0%Z (get_int tag_MsgSeqNum (m_header lm))) in (s', o, true)).
+Proof. exact logon_when_logged. Qed.
+Print Assumptions C06_logon_when_logged.
+
+(* the initiating side: Run sends exactly one message, a Logon with the configured heartbeat
+   interval, method and credentials *)
+Theorem C06_initiator_first :
+  forall cfg s, c_side cfg = Initiator -> clean cfg s -> save_first s ->
+    exists s0, s_settings s0 = s_settings s /\ s_cnt_out s0 = s_cnt_out s /\
+      wires (snd (run_session cfg s)) = [fst (prepare (stamped s0 (logon_request (s_settings s))))].
+Proof. exact initiator_first_message. Qed.
+Print Assumptions C06_initiator_first.
